@@ -183,6 +183,16 @@ func c05ListAtEdge(p m.Packet) bool {
 
 func TestC05(t *testing.T) {
 	defer harness.Uncaught(t)
+	if harness.Cfg.Shard == 0 {
+		// "a packet whose encoding fits the 16-bit length field": the values that fill it, and the
+		// longest lists (sizes and lengths kept in too few bits show here and nowhere below)
+		for _, p := range append(c02MaxSizeValues(), c10MaximalLists()...) {
+			subC05.Check(t, valCase{P: p})
+			harness.Eval(subC05.Name+"/max-size", 1)
+			harness.Class("max-size:"+string(p.Kind), 1)
+			harness.NonTrivialDistinct(1)
+		}
+	}
 	harness.RapidCheck(t, harness.Scale(8000, 60000), 5, func(rt *rapid.T) {
 		p, unaligned := genC05Value(rt)
 		c := valCase{P: p}
